@@ -222,8 +222,9 @@ CHECKS = {
                    "notification-socket buffers and event bursts are compared with FIFO queues per connection and direction; refused sends must have no effect; at server quiescence a queued event implies a readable descriptor",
         level_note="trusted: the queue model; client and server share one thread, so races inside a single ring operation are C01's subject, and blocking variants of the calls are not exercised here",
         stages=[rnd("msgs", "c02", 40000, 1500000, essential=["refused_then_retried", "two_in_flight", "deferred_notification", "size_at_limit", "size_beyond_limit", "fc_toggled_midburst", "shm", "socket",
-                                                                "event_readable_checked", "response_from_callback", "response_from_outside", "three_clients", "ring_full_refusal", "sendv"])],
-        assumptions=["at most 48 requests of one client are outstanding (beyond ~278 the client spins on the full notification socket, which cannot make progress in one thread)",
+                                                                "event_readable_checked", "response_from_callback", "response_from_outside", "three_clients", "ring_full_refusal", "sendv",
+                                                                "client_send_blocked_then_rescued"])],
+        assumptions=["at most 48 requests of one client are outstanding; the state in which the client blocks on a full client-to-server notification socket is reached by shrinking that socket's buffers, and a helper thread then runs server steps (only while the main thread is stuck inside the send), lifting flow control after 20 ms",
                      "readability of the event descriptor is demanded only when the server's dispatcher has nothing left to do (deferred notifications are re-sent from the server's loop)"],
     ),
     "C04": dict(
